@@ -28,14 +28,16 @@ Inductive ty :=
 
 Definition unsafe_pkg : pkg := mkPkg "unsafe" "unsafe".
 
-(* What MethodScope.populateImports visits (method_scope.go:79-142), in visiting order. *)
+(* What MethodScope.populateImports visits, in visiting order (since the repair of D8 also the
+   terms of a union and the package unsafe for unsafe.Pointer). *)
 Fixpoint refs (t : ty) : list pkg :=
   let refs_l := fix go (l : list ty) : list pkg :=
     match l with [] => [] | x :: r => refs x ++ go r end in
   let refs_nl := fix go (l : list (string * ty)) : list pkg :=
     match l with [] => [] | (_, x) :: r => refs x ++ go r end in
   match t with
-  | TBasic _ _ _ => []
+  | TBasic _ _ true => [unsafe_pkg]
+  | TBasic _ _ false => []
   | TNamed p _ targs => (match p with Some p => [p] | None => [] end) ++ refs_l targs
   | TAlias p _ targs => (match p with Some p => [p] | None => [] end) ++ refs_l targs
   | TParam _ => []
@@ -49,7 +51,9 @@ Fixpoint refs (t : ty) : list pkg :=
     (fix go (l : list (string * bool * ty * string)) : list pkg :=
        match l with [] => [] | (_, _, x, _) :: r => refs x ++ go r end) fs
   | TIface _ ms es => refs_nl ms ++ refs_l es
-  | TUnion _ => []
+  | TUnion ts =>
+    (fix go (l : list (bool * ty)) : list pkg :=
+       match l with [] => [] | (_, x) :: r => refs x ++ go r end) ts
   end.
 
 (* The packages types.TypeString asks a qualifier for, in printing order. *)
@@ -80,15 +84,16 @@ Fixpoint mentions (t : ty) : list pkg :=
        match l with [] => [] | (_, x) :: r => mentions x ++ go r end) ts
   end.
 
-(* the guard of refs_eq_mentions: no unsafe.Pointer, no package-qualified union term
-   anywhere inside (defect families D8, D21) *)
+(* the guard of refs_eq_mentions.  Before the repair of D8 it excluded unsafe.Pointer and
+   package-qualified union terms; what is left is a well-formedness condition on the dumped
+   terms: the predeclared any / interface{} (IfAny) has no members. *)
 Fixpoint walk_complete (t : ty) : bool :=
   let w_l := fix go (l : list ty) : bool :=
     match l with [] => true | x :: r => walk_complete x && go r end in
   let w_nl := fix go (l : list (string * ty)) : bool :=
     match l with [] => true | (_, x) :: r => walk_complete x && go r end in
   match t with
-  | TBasic _ _ u => negb u
+  | TBasic _ _ _ => true
   | TNamed _ _ targs => w_l targs
   | TAlias _ _ targs => w_l targs
   | TParam _ => true
@@ -105,8 +110,7 @@ Fixpoint walk_complete (t : ty) : bool :=
   | TIface _ ms es => w_nl ms && w_l es
   | TUnion ts =>
     (fix go (l : list (bool * ty)) : bool :=
-       match l with [] => true | (_, x) :: r =>
-         match mentions x with [] => go r | _ => false end end) ts
+       match l with [] => true | (_, x) :: r => walk_complete x && go r end) ts
   end.
 
 Record sig := mkSig {
